@@ -124,14 +124,14 @@ def isCtx (v : Value) : Bool :=
   | .ctx _ => true
   | _ => false
 
-/-- A path over a list of contexts maps the lookup over the items; an item without the entry
-contributes **nothing** (it is left out, not null). -/
+/-- A path over a list of contexts maps the lookup over **all** items; an item without the entry
+contributes null. -/
 theorem pathV_list_of_ctxs (cs : List Ctx) (n : String) :
-    pathV (.list (cs.map Value.ctx)) n = .list (cs.filterMap (fun c => Ctx.get c n)) := by
+    pathV (.list (cs.map Value.ctx)) n = .list (cs.map (fun c => (Ctx.get c n).getD .null)) := by
   unfold pathV
   simp only
   rw [if_pos (by simp [List.all_eq_true])]
-  simp only [List.filterMap_map]
+  simp only [List.map_map]
   rfl
 
 /-- A list with an item that is not a context has no paths. -/
